@@ -51,7 +51,11 @@ func (opt *Stop) Run(ctx app.Context) app.Error {
 
 		func(reconciler *reconciling.Reconciler) error {
 			if shouldTryYesterday && reconciler.Record.Date().IsEqualTo(yesterday) {
-				time, _ = time.Plus(klog.NewDuration(24, 0))
+				shiftedTime, sErr := time.Plus(klog.NewDuration(24, 0))
+				if sErr != nil {
+					return sErr
+				}
+				time = shiftedTime
 			}
 			return reconciler.CloseOpenRange(time, opt.TimeFormat(ctx.Config()), opt.Summary)
 		},
